@@ -61,6 +61,7 @@ def run(R, ctx):
         lines.append("P %s %d" % (h, rng.randint(2, 10 ** 9)))
     obs, crashes, se = core.run_harness_resilient(binary, "parser", lines)
     d = core.run_driver(obs)
+    core.negative_control(R, obs, "parser")
     R.add_cases(len(obs), int(d["summary"].get("positive", 0)), samples=[obs[0][:300], obs[len(obs) // 2][:300], obs[-1][:300]])
     R.extra["streams"] = dict(wellformed=nw, malformed=nm, lines=len(lines), harness_crashes=crashes,
                               longest_stream=max(len(s) for s in streams))
